@@ -1015,6 +1015,68 @@ func init() {
 			}
 			return out
 		},
+		// ---- internal/bytealg (assembly in the real runtime): exact on concrete arguments ----
+		"internal/bytealg.IndexByteString": func(m *Machine, a []Val) Val {
+			c := a[1].(Int)
+			if !c.IsC() {
+				m.incon("bytealg.IndexByteString: symbolic byte")
+			}
+			return CI(64, uint64(int64(strings.IndexByte(concStr(m, a[0], "bytealg.IndexByteString"), byte(c.C)))))
+		},
+		"internal/bytealg.IndexString": func(m *Machine, a []Val) Val {
+			return CI(64, uint64(int64(strings.Index(concStr(m, a[0], "bytealg.IndexString"), concStr(m, a[1], "bytealg.IndexString")))))
+		},
+		"internal/bytealg.CountString": func(m *Machine, a []Val) Val {
+			c := a[1].(Int)
+			if !c.IsC() {
+				m.incon("bytealg.CountString: symbolic byte")
+			}
+			return CI(64, uint64(strings.Count(concStr(m, a[0], "bytealg.CountString"), string([]byte{byte(c.C)}))))
+		},
+		"internal/bytealg.LastIndexByteString": func(m *Machine, a []Val) Val {
+			c := a[1].(Int)
+			if !c.IsC() {
+				m.incon("bytealg.LastIndexByteString: symbolic byte")
+			}
+			return CI(64, uint64(int64(strings.LastIndexByte(concStr(m, a[0], "bytealg.LastIndexByteString"), byte(c.C)))))
+		},
+		// []byte variants: exact when the bytes are concrete
+		"internal/bytealg.Index": func(m *Machine, a []Val) Val {
+			x, y := m.bytesToStr(a[0].(Slice)), m.bytesToStr(a[1].(Slice))
+			return CI(64, uint64(int64(strings.Index(concStr(m, x, "bytealg.Index"), concStr(m, y, "bytealg.Index")))))
+		},
+		"internal/bytealg.IndexByte": func(m *Machine, a []Val) Val {
+			c := a[1].(Int)
+			if !c.IsC() {
+				m.incon("bytealg.IndexByte: symbolic byte")
+			}
+			return CI(64, uint64(int64(strings.IndexByte(concStr(m, m.bytesToStr(a[0].(Slice)), "bytealg.IndexByte"), byte(c.C)))))
+		},
+		"internal/bytealg.Count": func(m *Machine, a []Val) Val {
+			c := a[1].(Int)
+			if !c.IsC() {
+				m.incon("bytealg.Count: symbolic byte")
+			}
+			return CI(64, uint64(strings.Count(concStr(m, m.bytesToStr(a[0].(Slice)), "bytealg.Count"), string([]byte{byte(c.C)}))))
+		},
+		"internal/bytealg.LastIndexByte": func(m *Machine, a []Val) Val {
+			c := a[1].(Int)
+			if !c.IsC() {
+				m.incon("bytealg.LastIndexByte: symbolic byte")
+			}
+			return CI(64, uint64(int64(strings.LastIndexByte(concStr(m, m.bytesToStr(a[0].(Slice)), "bytealg.LastIndexByte"), byte(c.C)))))
+		},
+		"internal/bytealg.Equal": func(m *Machine, a []Val) Val { return m.bytesEqual(a[0].(Slice), a[1].(Slice)) },
+		"internal/stringslite.Index": func(m *Machine, a []Val) Val {
+			return CI(64, uint64(int64(strings.Index(concStr(m, a[0], "stringslite.Index"), concStr(m, a[1], "stringslite.Index")))))
+		},
+		"internal/stringslite.IndexByte": func(m *Machine, a []Val) Val {
+			c := a[1].(Int)
+			if !c.IsC() {
+				m.incon("stringslite.IndexByte: symbolic byte")
+			}
+			return CI(64, uint64(int64(strings.IndexByte(concStr(m, a[0], "stringslite.IndexByte"), byte(c.C)))))
+		},
 		"runtime.Gosched": func(m *Machine, a []Val) Val { return nil },
 		"os.Getenv":       func(m *Machine, a []Val) Val { return Str{} },
 		"bufio.NewReader": func(m *Machine, a []Val) Val {
